@@ -266,8 +266,11 @@ func fromParamElem(f *ssa.Function, v ssa.Value, pname string) bool {
 }
 
 // R06.2 no write when equal / when terminating.
-func r06_2(r *Report, p *Program) {
-	const rule = "R06.2"
+func r06_2(r *Report, p *Program) { noWriteWhenEqual(r, p, "R06.2") }
+
+// noWriteWhenEqual (C06 R06.2, C05 R05.6, C01 R01.1): child Update/Delete only
+// across 'observed not terminating' and '!DeepEqual(merged, observed)'.
+func noWriteWhenEqual(r *Report, p *Program, rule string) {
 	r.Rule(rule, "every child Update/Delete sink is reached only across 'observed.GetDeletionTimestamp()==nil'; every Update, and every Delete in a function that computes ApplyUpdate, only across '!DeepEqual(merged, observed)'")
 	r.Floor(rule, 5)
 	sinks, _ := childSinks(p)
